@@ -309,8 +309,16 @@ def run(tier='quick', seed=0):
     f1_bad, f2_bad, f3_bad, fx_bad = [], [], [], []
     for s in sums:
         n_f1 += 1
-        if s.f1 and not (s.is_init or s.is_setter or s.ident in ALLOW_F1 or s.ident in cons):
-            f1_bad.append((s.ident, s.f1[:4]))
+        if s.f1 and s.ident not in ALLOW_F1:
+            if s.is_init or s.is_setter or s.ident in cons:
+                # construction time: writing the object under construction is fine; class-level and module-level state
+                # is shared by every model of the process and outlives the construction (a parser cache keyed too coarsely
+                # hands one culture's parser to another)
+                shared = [w for w in s.f1 if '[root self]' not in w[1]]
+                if shared:
+                    f1_bad.append((s.ident, shared[:4]))
+            else:
+                f1_bad.append((s.ident, s.f1[:4]))
         n_f2 += 1
         for (r, callee, idx, line, is_method, txt) in s.persist_pass:
             if s.is_init or s.ident in cons:
